@@ -26,7 +26,7 @@ use rustc_driver::{Callbacks, Compilation};
 use rustc_hir::def::DefKind;
 use rustc_hir::def_id::{DefId, LocalDefId};
 use rustc_middle::mir::{self, *};
-use rustc_middle::ty::print::{with_crate_prefix, with_no_trimmed_paths, PrintTraitRefExt};
+use rustc_middle::ty::print::{with_crate_prefix, with_no_trimmed_paths, with_no_visible_paths, PrintTraitRefExt};
 use rustc_middle::ty::{self, GenericArgsRef, Instance, InstanceKind, Ty, TyCtxt, TypingEnv};
 use rustc_span::{ExpnKind, MacroKind, Span};
 use std::cell::RefCell;
@@ -129,7 +129,7 @@ impl<'tcx> Cx<'tcx> {
 
     /// pretty, crate-qualified path of a definition
     fn path(&self, did: DefId) -> String {
-        let s = with_crate_prefix!(with_no_trimmed_paths!(self.tcx.def_path_str(did)));
+        let s = with_crate_prefix!(with_no_visible_paths!(with_no_trimmed_paths!(self.tcx.def_path_str(did))));
         self.norm(s)
     }
 
@@ -140,7 +140,7 @@ impl<'tcx> Cx<'tcx> {
     }
 
     fn ty(&self, t: Ty<'tcx>) -> String {
-        let s = with_crate_prefix!(with_no_trimmed_paths!(t.to_string()));
+        let s = with_crate_prefix!(with_no_visible_paths!(with_no_trimmed_paths!(t.to_string())));
         self.norm(s)
     }
 
@@ -486,7 +486,7 @@ impl<'a, 'tcx> BodyCx<'a, 'tcx> {
                     }
                 }
                 let gargs: Vec<String> = args.iter().map(|a| {
-                    let s = with_crate_prefix!(with_no_trimmed_paths!(a.to_string()));
+                    let s = with_crate_prefix!(with_no_visible_paths!(with_no_trimmed_paths!(a.to_string())));
                     esc(&self.cx.norm(s))
                 }).collect();
                 let _ = write!(o, ",\"gargs\":{}", jlist(&gargs));
@@ -753,7 +753,7 @@ fn dump_body<'tcx>(cx: &Cx<'tcx>, ldid: LocalDefId, out: &mut String, stats: &mu
             }
             if of_trait {
                 let tr = tcx.impl_trait_ref(parent).instantiate_identity().skip_norm_wip();
-                let s = with_crate_prefix!(with_no_trimmed_paths!(tr.print_only_trait_path().to_string()));
+                let s = with_crate_prefix!(with_no_visible_paths!(with_no_trimmed_paths!(tr.print_only_trait_path().to_string())));
                 let _ = write!(o, ",\"trait\":{},\"trait_def\":{}", esc(&cx.norm(s)), esc(&cx.path(tr.def_id)));
             }
         } else if tcx.def_kind(parent) == DefKind::Trait {
@@ -927,7 +927,7 @@ fn dump_items<'tcx>(cx: &Cx<'tcx>, out: &mut String, stats: &mut Stats) {
                 }
                 if of_trait {
                     let tr = tcx.impl_trait_ref(did).instantiate_identity().skip_norm_wip();
-                    let s = with_crate_prefix!(with_no_trimmed_paths!(tr.print_only_trait_path().to_string()));
+                    let s = with_crate_prefix!(with_no_visible_paths!(with_no_trimmed_paths!(tr.print_only_trait_path().to_string())));
                     let _ = write!(o, ",\"trait\":{},\"trait_def\":{}", esc(&cx.norm(s)), esc(&cx.path(tr.def_id)));
                 }
                 let macros = cx.macros(tcx.def_span(did));
